@@ -541,6 +541,12 @@ def build_doc(spec):
                     id=i, pre_cell="../%s/%d/c" % (p["pre"], a), post_cell="../%s/%d/c" % (p["post"], b),
                     synapse="gj1", pre_segment=0, post_segment=0, pre_fraction_along=0.5, post_fraction_along=0.5,
                     weight=w))
+            if p.get("mixed"):
+                # two synapses in one electrical projection: refused by exportHdf5 AFTER its group was created
+                members = ep.electrical_connections + ep.electrical_connection_instances + \
+                    ep.electrical_connection_instance_ws
+                if len(members) > 1:
+                    members[-1].synapse = "gj2"
             net.electrical_projections.append(ep)
         for p in ns.get("cprojs", []):
             cp = n.ContinuousProjection(id=p["id"], presynaptic_population=p["pre"],
@@ -558,6 +564,11 @@ def build_doc(spec):
                     id=i, pre_cell="../%s/%d/c" % (p["pre"], a), post_cell="../%s/%d/c" % (p["post"], b),
                     pre_component="silent1", post_component="gs1", pre_segment=0, post_segment=0,
                     pre_fraction_along=0.5, post_fraction_along=0.5, weight=w))
+            if p.get("mixed"):
+                members = cp.continuous_connections + cp.continuous_connection_instances + \
+                    cp.continuous_connection_instance_ws
+                if len(members) > 1:
+                    members[-1].post_component = "gs2"
             net.continuous_projections.append(cp)
         for p in ns.get("ilists", []):
             il = n.InputList(id=p["id"], component=p.get("comp", "pg1"), populations=p["pop"])
@@ -662,6 +673,8 @@ def gen_network(rng, k, rich=True):
             ep["instances"] = [[j, j, j + 1] for j in range(rng.randint(1, 3))]
         elif r < 0.85:
             ep["instance_ws"] = [[j, j, j + 1, 0.5] for j in range(rng.randint(1, 3))]
+        if rng.random() < 0.15:
+            ep["mixed"] = True        # (only with >= 2 connections) refused in the middle of the write
         net["eprojs"].append(ep)      # else: an empty electrical projection (IndexError in exportHdf5)
     net["cprojs"] = []
     for i in range(rng.choice([0, 0, 1])):
@@ -673,6 +686,8 @@ def gen_network(rng, k, rich=True):
             cp["instances"] = [[j, j, j + 1] for j in range(rng.randint(1, 3))]
         elif r < 0.9:
             cp["instance_ws"] = [[j, j, j + 1, 2.0] for j in range(rng.randint(1, 3))]
+        if rng.random() < 0.15:
+            cp["mixed"] = True
         net["cprojs"].append(cp)
     net["ilists"] = []
     for i in range(rng.choice([0, 1, 1])):
@@ -800,6 +815,8 @@ def the_call(kind, obj, path, opts=None, fileobj=None):
         return L.read_neuroml2_file(path)
     if kind == "rfi":
         return L.read_neuroml2_file(path, include_includes=True)
+    if kind == "rfa":       # the caller keeps the list of included files (obj) across calls
+        return L.read_neuroml2_file(path, include_includes=True, already_included=obj)
     if kind == "rs":
         return L.read_neuroml2_string(obj)
     if kind == "aw":
@@ -814,7 +831,9 @@ def the_call(kind, obj, path, opts=None, fileobj=None):
 
 
 KIND_ENTRY = {"xw": 1, "hw": 2, "aw": 3, "hr": 4, "hro": 5, "ar": 6, "xr": 7, "xwo": 8, "hwn": 9, "hwo": 10, "rf": 11,
-              "rfi": 12, "rs": 13}
+              "rfi": 12, "rs": 13, "rfa": 12}
+# display name where it differs from the entry point's (same skeleton, another argument specialisation)
+KIND_NAME = {"rfa": "read_neuroml2_file[already_included]"}
 
 
 def tb_frames(exc):
@@ -939,6 +958,7 @@ def observe(kind, obj, path, fault_at=None, fault_kind=1, opts=None):
     before = dump(obj) if is_writer else None
     idmap = identity_map(obj) if is_writer else None
     rec = Rec(eid, path, fault_at, fault_kind, doc_object_ids(obj) if is_writer else ())
+    caller_list = list(obj) if kind == "rfa" else None
     exc = None
     result = None
     fileobj = None
@@ -969,6 +989,9 @@ def observe(kind, obj, path, fault_at=None, fault_kind=1, opts=None):
            "changed_fields": sorted(diff_fields(before, after)) if is_writer and before != after else [],
            "moved": moved[:5], "relisted": relisted[:5], "callers_file_closed": callers_file_closed,
            "unlabelled": rec.unlabelled[:3]}
+    if kind == "rfa":
+        obs["list_added"] = [os.path.basename(x) for x in obj[len(caller_list):]] if obj[:len(caller_list)] == caller_list \
+            else ["<rewritten>"]
     if exc is not None and not rec.delivered:
         # the input itself made the library fail
         if rec.last_raise is not None and rec.last_raise[1] is exc:
@@ -1038,6 +1061,8 @@ def make_input(case, root):
     if kind == "rf":
         c2 = dict(case, kind="hr")
         return kind, None, make_input(c2, root)[2]
+    if kind == "rfa":
+        return kind, [], make_input(dict(case, kind="rfi"), root)[2]
     if kind == "rfi":
         # main.nml includes an XML file and an HDF5 file lying next to it
         import neuroml as n
@@ -1149,7 +1174,7 @@ def run_case(ctx, case, cap=60):
     try:
         kind, obj, path = make_input(case, root)
         opts = case.get("opts")
-        name = ENTRY_NAMES[KIND_ENTRY[kind]]
+        name = KIND_NAME.get(kind, ENTRY_NAMES[KIND_ENTRY[kind]])
         clean, res = observe(kind, obj, path, opts=opts)
         rec["clean"] = clean
         rec["entry"] = KIND_ENTRY[kind]
@@ -1196,6 +1221,8 @@ def run_case(ctx, case, cap=60):
             for fk in kinds:
                 if fk == 2 and k % 3 != 1 and len(pts) > 12:
                     continue          # AttributeError-class faults: a third of the points of long runs
+                if kind == "rfa":
+                    obj = []                             # the caller's list, empty before every failing call
                 if kind in WRITERS:
                     obj = make_input(case, root)[1]      # a fresh document for every run (the path keeps what the
                     #                                      previous failed/retried call left on it)
@@ -1286,6 +1313,18 @@ def cure(case, obj):
                 net.synaptic_connections = []
                 net.explicit_inputs = []
                 done = True
+            for e in net.electrical_projections:
+                for c in e.electrical_connections + e.electrical_connection_instances + \
+                        e.electrical_connection_instance_ws:
+                    if c.synapse == "gj2":
+                        c.synapse = "gj1"
+                        done = True
+            for e in net.continuous_projections:
+                for c in e.continuous_connections + e.continuous_connection_instances + \
+                        e.continuous_connection_instance_ws:
+                    if c.post_component == "gs2":
+                        c.post_component = "gs1"
+                        done = True
             keep = [e for e in net.electrical_projections if e.electrical_connections or
                     e.electrical_connection_instances or e.electrical_connection_instance_ws]
             if len(keep) != len(net.electrical_projections):
@@ -1325,6 +1364,12 @@ def check_oracle(ctx, case, name, kind, obj, path, o, fault):
         ctx.fail("C08:%s:doc-changed:identity" % name,
                  "%s left the document holding other (equal) component objects after a failed call" % name,
                  dict(where, moved=o["moved"]))
+    if o.get("list_added"):
+        # the caller's `already_included` list is an argument the failed call must leave as it was: files marked as
+        # included although nothing of them was merged are skipped by the next call made with the same list
+        ctx.fail("C08:%s:caller-list-changed" % name,
+                 "%s left files marked in the caller's already_included list after a failed call" % name,
+                 dict(where, marked=o["list_added"]))
     if o.get("relisted"):
         ctx.count("member-list-replaced-by-equal-list")     # harmless by itself (observed, not a failure)
     # retry: the same call, same document object, same path (with whatever the failed call left on it), no fault
@@ -1718,6 +1763,17 @@ CORPUS += [
     {"kind": "rfi", "spec": {"id": "i4", "networks": [NET1]}, "damage": "inc_missing"},
     # a group nested deeper than the expansion of parse_group (un-expanded code below the third level)
     {"kind": "hr", "spec": {"id": "r5", "networks": [NET1]}, "damage": "deep_group"},
+    # follow-up (repaired tree): a construct refused in the MIDDLE of the write -- two synapses in one electrical
+    # projection / two components in one continuous projection are refused after the projection group was created:
+    # the handle must be closed, the networks re-attached, the cured document written by the retry
+    {"kind": "hw", "spec": {"id": "m1", "izh": ["i0"], "networks": [{"id": "n", "pops": [{"id": "p0", "size": 3}],
+        "eprojs": [{"id": "ep", "pre": "p0", "post": "p0", "conns": [[0, 0, 1], [1, 1, 2]], "mixed": True}]}]}},
+    {"kind": "hwn", "spec": {"id": "m2", "networks": [{"id": "n", "pops": [{"id": "p0", "instances": [[0, 0, 0], [1, 0, 0]]}],
+        "cprojs": [{"id": "cp", "pre": "p0", "post": "p0", "instances": [[0, 0, 1], [1, 1, 0]], "mixed": True}]}]}},
+    # OPEN FINDING: a list of included files owned by the caller keeps the marks of a failed read (the XML include was
+    # merged into a document that is thrown away; on the repaired tree the HDF5 include is marked before it is read)
+    {"kind": "rfa", "spec": {"id": "a1", "networks": [NET1]}, "damage": "no_root"},
+    {"kind": "rfa", "spec": {"id": "a2", "izh": ["i0"], "networks": [NET1]}},
     # files as older writers left them: no embedded XML, no column attributes, attribute values as bytes
     {"kind": "hr", "spec": {"id": "r6", "izh": ["i0"], "networks": [NET1]}, "damage": "noembed"},
     {"kind": "hr", "spec": {"id": "r7", "networks": [NET1]}, "damage": "no_columns"},
@@ -1738,8 +1794,10 @@ def reader_spec(rng):
         net.pop("synconn", None)
         net.pop("expinputs", None)
         net["ilists"] = [e for e in net.get("ilists", []) if e["inputs"] or e["inputs_w"]]
-        net["eprojs"] = [e for e in net.get("eprojs", []) if len(e) > 3]
-        net["cprojs"] = [e for e in net.get("cprojs", []) if len(e) > 3]
+        net["eprojs"] = [{k: v for k, v in e.items() if k != "mixed"} for e in net.get("eprojs", [])
+                         if len(e) - ("mixed" in e) > 3]
+        net["cprojs"] = [{k: v for k, v in e.items() if k != "mixed"} for e in net.get("cprojs", [])
+                         if len(e) - ("mixed" in e) > 3]
     return spec
 
 
@@ -1776,6 +1834,9 @@ def gen_cases2(ctx):
         cases.append({"kind": kind, "spec": spec, "form": "xml", "damage": dmg, "at": rng.choice([0.1, 0.5, 0.9, 0.99])})
     for _ in range(ctx.n(3, 16) * m):
         cases.append({"kind": "rf", "form": "h5", "spec": reader_spec(rng), "damage": rng.choice(DAMAGE)})
+    for _ in range(ctx.n(1, 6) * m):
+        cases.append({"kind": "rfa", "spec": reader_spec(rng),
+                      "damage": rng.choice([None, "no_root", "bad_xml", "not_hdf5"])})
     for _ in range(ctx.n(2, 10) * m):
         cases.append({"kind": "rfi", "spec": reader_spec(rng),
                       "damage": rng.choice([None, None, "no_root", "bad_xml", "not_hdf5", "inc_missing", "inc_truncated"])})
@@ -1803,8 +1864,10 @@ def gen_cases(ctx):
             net.pop("synconn", None)
             net.pop("expinputs", None)
             net["ilists"] = [e for e in net.get("ilists", []) if e["inputs"] or e["inputs_w"]]
-            net["eprojs"] = [e for e in net.get("eprojs", []) if len(e) > 3]
-            net["cprojs"] = [e for e in net.get("cprojs", []) if len(e) > 3]
+            net["eprojs"] = [{k: v for k, v in e.items() if k != "mixed"} for e in net.get("eprojs", [])
+                         if len(e) - ("mixed" in e) > 3]
+            net["cprojs"] = [{k: v for k, v in e.items() if k != "mixed"} for e in net.get("cprojs", [])
+                         if len(e) - ("mixed" in e) > 3]
         cases.append({"kind": rng.choice(["hr", "hr", "hro"]), "spec": spec, "damage": rng.choice(DAMAGE)})
     for _ in range(ctx.n(3, 25) * m):
         spec = gen_am_spec(rng)
